@@ -9,13 +9,13 @@ TB = "trusted: rustc 1.97-nightly front end (resolution, type check, MIR constru
 CHECKS = {
     "C08": dict(
         category="proof",
-        text="Every sink write reachable from Program::serialize / the writing CLI actions is a complete write (write_all/write_fmt) or a partial write (write/write_vectored) that is provably resumed — std's resume loop, or byte accounting of the enclosing function by symbolic execution with linear arithmetic over the returned count (anything else is reported as 'cannot show') —, local Write impls forward write/flush unchanged, no Result on the path is dropped, and every buffering writer a function owns and writes to is flushed after the last write with the Result checked (a drop-time flush swallows the error). With std's Write contract this gives 'all bytes or an error' for every short-write and every failing behaviour of the sink.",
+        text="Every sink write reachable from Program::serialize / the writing CLI actions is a complete write (write_all/write_fmt) or a partial write (write/write_vectored) that is provably resumed — std's resume loop, or byte accounting of the enclosing function by symbolic execution with linear arithmetic over the returned count (anything else is reported as 'cannot show') —, local Write impls forward write/flush unchanged, no Result on the path is dropped, and every buffering writer a function owns and writes to is flushed after the last write with the Result checked (a drop-time flush swallows the error). With std's Write contract this gives 'all bytes or an error' for every short-write and every failing behaviour of the sink. Nothing happens to the sink but the serializer's writes and the flush (C04's R4.notrailing obligations as a presupposition: no pre-sizing, seeking or second handle).",
         note=TB + "; the write_all/write_fmt/flush contract; symbolic executor + std models for the accounting rule",
         technique="static analysis: MIR call-graph reachability + def-use of Write::write counts and Result values on type-checked HIR + symbolic byte accounting of partial writes + must-flush ownership rule for buffering writers",
         ref="DESIGN.md §3 C08"),
     "C10": dict(
         category="other",
-        text="Structural error discipline over everything reachable from main: no Result dropped or swallowed (enumerated discard idioms), no exit/abort/catch_unwind/stderr-on-success, no user unsafe incl. the generated parser, every call-graph cycle listed with a checked bound (parent field construction-only; on-path guard for rendering through mutable heap storage), print is atomic (no failure exit after an observable write), program output is written through (no buffering past a fault), and no faulting instruction is compiled away when a value is discarded (keep=false templates compile the same faulting instructions and children as keep=true). Unlisted recursive components are accepted only as structural recursion over the syntax tree (every call cycle descends to a sub-tree binding). Necessary conditions of the behaviour for every program; native stack bytes, malformed-source classes and stderr text are not decided.",
+        text="Structural error discipline over everything reachable from main: no Result dropped or swallowed (enumerated discard idioms), no exit/abort/catch_unwind/stderr-on-success, no user unsafe incl. the generated parser, every call-graph cycle listed with a checked bound (parent field construction-only; on-path guard for rendering through mutable heap storage), print is atomic (no failure exit after an observable write), program output is written through (no buffering past a fault), and no faulting instruction is compiled away when a value is discarded (keep=false templates compile the same faulting instructions and children as keep=true). Unlisted recursive components are accepted only as structural recursion over the syntax tree (every call cycle descends to a sub-tree binding). Necessary conditions of the behaviour for every program; native stack bytes, malformed-source classes and stderr text are not decided. No anyhow::Error is wrapped once per element of a run-time collection (a chain dropped recursively).",
         note=TB + "; panic=unwind; expect/unwrap exit with status 101 and a message on stderr",
         technique="static analysis: Result def-use discipline on HIR, call-graph SCC census with guard recogniser, who-may-write census, structured may-follow ordering in eval_print",
         ref="DESIGN.md §3 C10"),
@@ -27,13 +27,13 @@ CHECKS = {
         ref="DESIGN.md §3 C11"),
     "C14": dict(
         category="other",
-        text="Reference semantics as type/ownership facts (Pointer: Copy with an index-only Reference payload; no clone of heap objects or their element storage in the VM; element storage written only by set_element/set_field on the heap-resident object; heap append-only) plus handler-template rules for dispatch order, arity checks and get/set/operator sugar. Structural, each rule a necessary condition. Identity: every object / array creation allocates and yields a fresh reference (C05's Object/Array rows as a presupposition); array get/set arity probed through the dispatch entry.",
+        text="Reference semantics as type/ownership facts (Pointer: Copy with an index-only Reference payload; no clone of heap objects or their element storage in the VM; element storage written only by set_element/set_field on the heap-resident object; heap append-only) plus handler-template rules for dispatch order, arity checks and get/set/operator sugar. Structural, each rule a necessary condition. Identity: every object / array creation allocates and yields a fresh reference (C05's Object/Array rows as a presupposition); array get/set arity probed through the dispatch entry. A heap slot, once filled, is never overwritten (no index assignment / iter_mut / swap on the heap vector).",
         note=TB,
         technique="static analysis: ADT/impl facts, who-may-write / who-may-call / clone census on HIR+MIR call graph; effect templates of the dispatch functions",
         ref="DESIGN.md §3 C14"),
     "C16": dict(
         category="other",
-        text="Heap-log contract decided structurally: the heap vector grows only in Heap::allocate, where size update → one `<ns>,A,<updated size>` record → one push are ordered and unconditional (apart from the log-is-Some test); allocate is called exactly once, outside loops, by the array and the object evaluator only; record templates equal the documented ones; the size function is pure in the value's shape with a positive constant term; max_size is write-only, log is touched only by the log writer, the --heap-size number reaches only set_size and no overflow-sensitive arithmetic. Timestamp order and file-system failures are not decided.",
+        text="Heap-log contract decided structurally: the heap vector grows only in Heap::allocate, where size update → one `<ns>,A,<updated size>` record → one push are ordered and unconditional (apart from the log-is-Some test); allocate is called exactly once, outside loops, by the array and the object evaluator only; record templates equal the documented ones; the size function is pure in the value's shape with a positive constant term; max_size is write-only, log is touched only by the log writer, the --heap-size number reaches only set_size and no overflow-sensitive arithmetic. Timestamp order and file-system failures are not decided. Heap.size is written by allocate only.",
         note=TB + "; S9 record formats taken from the property statement",
         technique="static analysis: who-may-write/who-may-call census, structured ordering in allocate, format_args templates captured from the expanded AST, CLI taint",
         ref="DESIGN.md §3 C16"),
@@ -69,13 +69,13 @@ CHECKS["C05"] = dict(
 
 CHECKS["C03"] = dict(
     category="other",
-    text="Inverse-ness decided as agreement of two syntax-directed templates: writer (Program::serialize ↓) and reader (Program::from_bytes ↓) are executed symbolically down to write_all/read_exact; for the 7 constant kinds, the 17 opcodes and the program frame the extracted layouts coincide token by token (tag, field order and destination, width, endianness, counts, element kinds); tag tables injective and mutually inverse; primitive pairs inverse by construction; narrowing casts range-asserted; loader appends method code in pool order while the writer emits each method's own range forwards; labels derived by one shared function; the loaded pool holds the file's constants one-to-one in file order, no sequence passes through a reordering/deduplicating collection, decoded numbers reach their fields unchanged, and the CLI's input reader is byte-transparent (file/stdin under Box/BufReader, or a Cursor over the bytes as read). Necessary and, with the primitive rules, essentially sufficient at the byte level; 'same behaviour when executed' follows only together with C05. On every reader path that builds a Method the instructions read are appended once with the range starting at the previous length; the CLI's input reader is the file / stdin under byte-transparent wrappers, is not used before it is stored, and nobody but the forwarding Read/BufRead impls and whole-input reads takes bytes from it.",
+    text="Inverse-ness decided as agreement of two syntax-directed templates: writer (Program::serialize ↓) and reader (Program::from_bytes ↓) are executed symbolically down to write_all/read_exact; for the 7 constant kinds, the 17 opcodes and the program frame the extracted layouts coincide token by token (tag, field order and destination, width, endianness, counts, element kinds); tag tables injective and mutually inverse; primitive pairs inverse by construction; narrowing casts range-asserted; loader appends method code in pool order while the writer emits each method's own range forwards; labels derived by one shared function; the loaded pool holds the file's constants one-to-one in file order, no sequence passes through a reordering/deduplicating collection, decoded numbers reach their fields unchanged, and the CLI's input reader is byte-transparent (file/stdin under Box/BufReader, or a Cursor over the bytes as read). Necessary and, with the primitive rules, essentially sufficient at the byte level; 'same behaviour when executed' follows only together with C05. On every reader path that builds a Method the instructions read are appended once with the range starting at the previous length; the CLI's input reader is the file / stdin under byte-transparent wrappers, is not used before it is stored, and nobody but the forwarding Read/BufRead impls and whole-input reads takes bytes from it. Every instruction the compiler emits lies in a method's range (C02's R2.methods as a presupposition), so writing method by method loses nothing.",
     note=TB + "; to_le_bytes/from_le_bytes mutually inverse; symbolic executor + std models",
     technique="static analysis: symbolic execution of serializer and loader into layout templates + token-wise agreement, tag-table inversion, cast/assert census",
     ref="DESIGN.md §3 C03")
 CHECKS["C04"] = dict(
     category="other",
-    text="Writer AND reader layouts (extracted by symbolic execution down to write_all/read_exact, per constant kind, per opcode and for the program frame) are each compared with S3, an independent grammar written from the property statement and the Feeny opcode numbering, and with the numbers in the doc comments — so a symmetric change of width, endianness, tag, field order or 'length in chars' is caught; nothing is written after the entry index, the compile action writes nothing else and truncates its output file; the loaded pool holds the file's constants one-to-one in order and the input reader is byte-transparent. Intended sound for 'every emitted file is exactly …' and for the reader accepting exactly that grammar. Nobody but the loader reads from the CLI's input (who-reads-the-input census; stored-reader provenance through locals and constructor parameters).",
+    text="Writer AND reader layouts (extracted by symbolic execution down to write_all/read_exact, per constant kind, per opcode and for the program frame) are each compared with S3, an independent grammar written from the property statement and the Feeny opcode numbering, and with the numbers in the doc comments — so a symmetric change of width, endianness, tag, field order or 'length in chars' is caught; nothing is written after the entry index, the compile action writes nothing else and truncates its output file; the loaded pool holds the file's constants one-to-one in order and the input reader is byte-transparent. Intended sound for 'every emitted file is exactly …' and for the reader accepting exactly that grammar. Nobody but the loader reads from the CLI's input (who-reads-the-input census; stored-reader provenance through locals and constructor parameters). A count-prefixed sequence is read exactly count times: the loop bound is the decoded count itself.",
     note=TB + "; S3 grammar (DESIGN A.3)",
     technique="static analysis: symbolic execution into layout templates + comparison with an independent layout grammar",
     ref="DESIGN.md §3 C04")
@@ -88,13 +88,13 @@ CHECKS["C07"] = dict(
     ref="DESIGN.md §3 C07")
 CHECKS["C09"] = dict(
     category="other",
-    text="The built-in operations are finite decision tables. First-match pattern semantics (or-patterns, guards) are evaluated over {every spelling that occurs, OTHER} × {Null, Integer, Boolean, Reference} for the three dispatch tables; every cell's action — a closed form over receiver and argument whose meaning is fixed by the operator/method identity — equals S4, including Feeny spellings and operand order; argument count ≠ 1 fails first; an operator application is compiled whether or not its value is used (failing is an effect). Because actions are closed forms over i32 this decides the tables for all operand values. Build independence is decided at the operator level: plain + - * / unary - on i32 inherit overflow checks and are rejected (wrapping_* required); / and % check unconditionally. That a failing built-in fails the program (its Err reaches the exit status) is C10's propagation obligations, evaluated as a presupposition (R9.fails).",
+    text="The built-in operations are finite decision tables. First-match pattern semantics (or-patterns, guards) are evaluated over {every spelling that occurs, OTHER} × {Null, Integer, Boolean, Reference} for the three dispatch tables; every cell's action — a closed form over receiver and argument whose meaning is fixed by the operator/method identity — equals S4, including Feeny spellings and operand order; argument count ≠ 1 fails first; an operator application is compiled whether or not its value is used (failing is an effect). Because actions are closed forms over i32 this decides the tables for all operand values. Build independence is decided at the operator level: plain + - * / unary - on i32 inherit overflow checks and are rejected (wrapping_* required); / and % check unconditionally. That a failing built-in fails the program (its Err reaches the exit status) is C10's propagation obligations, evaluated as a presupposition (R9.fails). Integer literals denote their value over the whole 32-bit range (C07's NUMBER / Number obligations as a presupposition).",
     note=TB + "; Rust operator semantics on i32; LLVM",
     technique="static analysis: match-table extraction + finite first-match evaluation + operator/operand-type census",
     ref="DESIGN.md §3 C09")
 CHECKS["C15"] = dict(
     category="other",
-    text="print decided as a state machine plus renderer shapes: the body of the loop over the format's chars() (found in eval_print or a helper it calls) is abstractly interpreted once per cell of {escaped, plain} × {~ backslash quote n t r OTHER} — character and scanner state fixed, helpers inlined — and the text appended, the arguments taken and the state afterwards must equal S5 in every cell (covers every Unicode format string because the loop is over chars() and OTHER is a symbolic character); every successful path of eval_print runs that loop; both count-mismatch directions fail and null is pushed; per value kind the rendering shape equals S5 (literal texts, payload to_string, [..] with ', ', three object templates selected by parent/fields, name=value, sort on the field name preceding the traversal, a path-scoped cycle guard); the string-literal terminal admits exactly the VM's escape set and the String alternative builds the token text without its quotes (value of its type-checked action).",
+    text="print decided as a state machine plus renderer shapes: the body of the loop over the format's chars() (found in eval_print or a helper it calls) is abstractly interpreted once per cell of {escaped, plain} × {~ backslash quote n t r OTHER} — character and scanner state fixed, helpers inlined — and the text appended, the arguments taken and the state afterwards must equal S5 in every cell (covers every Unicode format string because the loop is over chars() and OTHER is a symbolic character); every successful path of eval_print runs that loop; both count-mismatch directions fail and null is pushed; per value kind the rendering shape equals S5 (literal texts, payload to_string, [..] with ', ', three object templates selected by parent/fields, name=value, sort on the field name preceding the traversal, a path-scoped cycle guard); the string-literal terminal admits exactly the VM's escape set and the String alternative builds the token text without its quotes (value of its type-checked action). The renderer print calls is exactly one call of the recursive renderer on a fresh guard with the result returned unchanged (no memo).",
     note=TB + "; i32/bool to_string and slice::join",
     technique="static analysis: cell-wise abstract interpretation of the scanner loop body, handler templates, format_args templates of the renderers, grammar/regex analysis",
     ref="DESIGN.md §3 C15")
